@@ -7,8 +7,11 @@
 **                                     -> ok open=<n,n,…>          (what the model starts from: the numbers that are taken)
 **   fdw sentinel kN                   the caller opens a file of its own (64 known bytes) and seeks to offset 7 + N   -> ok fd=<n>
 **   fdw unsent kN                     … and closes it                                                               -> ok
-**   fdw open aN <r|w|rw> fmt=<hex> ch=<n> sr=<n> route=path|fd1|fd0 ext=<e>
+**   fdw open aN <r|w|rw> fmt=<hex> ch=<n> sr=<n> route=path|fd1|fd0 ext=<e> [name=<base>]
 **                                     file aN.<ext> in the private directory (kept between handles of the same slot: write it, close, re-open);
+**                                     with name=<base>: file <base>.<ext> in the slot's OWN sub-directory dN/ -- several slots may then use the
+**                                     same file name (what the library derives from a name -- the SD2 resource fork `._<base>.<ext>`, anything
+**                                     named after psf->file.name -- must still be per handle);
 **                                     -> open=ok fd=<psf->file.filedes> rsrc=<psf->rsrc.filedes> | open=NULL err=<n>
 **   fdw w aN <frames>                 sf_writef_short of a pattern that depends on the slot and on how much the slot wrote -> ret=<n> err=<n>
 **   fdw r aN <frames>                 sf_readf_short                                                                -> ret=<n> err=<n> sum=<fnv>
@@ -203,8 +206,17 @@ op_fdworld (char **tok, int ntok)
 			if ((v = kvf (tok, ntok, "ch")) && mode != SFM_READ) info.channels = atoi (v) ;
 			if ((v = kvf (tok, ntok, "sr")) && mode != SFM_READ) info.samplerate = atoi (v) ;
 			if (route == NULL) route = "path" ;
-			snprintf (h->path, sizeof (h->path), "%s/a%d.%s", dir, k, ext ? ext : "dat") ;
-			snprintf (h->rpath, sizeof (h->rpath), "%s/._a%d.%s", dir, k, ext ? ext : "dat") ;
+			if ((v = kvf (tok, ntok, "name")) != NULL)
+			{	char sub2 [280] ;
+				snprintf (sub2, sizeof (sub2), "%s/d%d", dir, k) ;
+				mkdir (sub2, 0700) ;
+				snprintf (h->path, sizeof (h->path), "%s/%.40s.%s", sub2, v, ext ? ext : "dat") ;
+				snprintf (h->rpath, sizeof (h->rpath), "%s/._%.40s.%s", sub2, v, ext ? ext : "dat") ;
+				}
+			else
+			{	snprintf (h->path, sizeof (h->path), "%s/a%d.%s", dir, k, ext ? ext : "dat") ;
+				snprintf (h->rpath, sizeof (h->rpath), "%s/._a%d.%s", dir, k, ext ? ext : "dat") ;
+				} ;
 			h->userfd = -1 ; h->close_desc = 1 ;
 			if (!strcmp (route, "path"))
 				h->sf = sf_open (h->path, mode, &info) ;
